@@ -176,3 +176,57 @@ kproof! {
         core::mem::forget(blk);
     }
 }
+
+/// Token mirror with CONCRETE structure (text length, number and kinds of tokens) and symbolic content
+/// (text bytes, reference lengths/distances, candidate lists, parameters): §1.2 of DESIGN.md.
+fn token_mirror_shape<const T: usize, const NT: usize>(kinds: [bool; NT], four: bool, lazy: bool, kmax: usize) {
+    let text: [u8; T] = kani::any();
+    let p = any_predictor_params();
+    kani::assume(matches!(p.matching_type, crate::preflate_parse_config::MatchingType::Lazy { .. }) == lazy);
+    let m = ModelChain::any(T, kmax, if four { 4 } else { 3 });
+    let mut blk = PreflateTokenBlock::new(BlockType::StaticHuff);
+    let mut pos = 0usize;
+    let mut i = 0;
+    while i < NT {
+        kani::assume(pos < T);
+        if kinds[i] {
+            let l: usize = kani::any();
+            let d: usize = kani::any();
+            kani::assume(valid_reference(&text[..], pos, l, d));
+            blk.tokens.push(PreflateToken::new_reference(l as u32, d as u32, false));
+            pos += l;
+        } else {
+            blk.tokens.push(PreflateToken::Literal(text[pos]));
+            pos += 1;
+        }
+        i += 1;
+    }
+    let last = pos == T;
+    let mut rec = Rec::new();
+    let mut pa = mk_predictor(&text[..], &p, m, four);
+    unsafe { UPD_SIDE = 0; }
+    let r = pa.predict_block(&blk, &mut rec, last);
+    let ok = r.is_ok();
+    if ok {
+        let mut pb = mk_predictor(&text[..], &p, m, four);
+        unsafe { UPD_SIDE = 1; }
+        let rb = pb.recreate_block(&mut rec);
+        assert!(rb.is_ok(), "recreate_block fails on corrections predict_block produced");
+        let b2 = rb.unwrap();
+        assert!(b2.tokens.len() == NT, "token count changed");
+        let mut i = 0;
+        while i < NT { assert!(b2.tokens[i] == blk.tokens[i], "token changed in reconstruction"); i += 1; }
+        assert!(pb.input.pos() as usize == pos);
+        assert!(rec.fully_consumed(), "reconstruction did not consume the corrections exactly");
+        assert!(same_dictionary_updates(), "analysis and reconstruction inserted different positions into the dictionary");
+        core::mem::forget(b2);
+        core::mem::forget(pb);
+    }
+    kani::cover!(ok, "mirrored");
+    kani::cover!(!ok, "predict_block reports Err");
+    core::mem::forget(r);
+    core::mem::forget(pa);
+    core::mem::forget(blk);
+}
+kproof! { fn k02e_shape_lr_greedy_h3() { token_mirror_shape::<6, 2>([false, true], false, false, 1); } }
+kproof! { fn k02e_shape_lr_lazy_h3() { token_mirror_shape::<6, 2>([false, true], false, true, 1); } }
